@@ -30,7 +30,7 @@ fn fnv<T: Hash>(x: &T) -> u64 { let mut h = Fnv(0xcbf29ce484222325); x.hash(&mut
                 "op_gt" => return Some(($x(0) > $x(1)).out()),
                 "op_ge" => return Some(($x(0) >= $x(1)).out()),
                 "ord_cmp" => return Some(Ord::cmp(&$x(0), &$x(1)).out()),
-                "partial_cmp" => return Some(PartialOrd::partial_cmp(&$x(0), &$x(1)).map(|o| o.out()).unwrap_or("None".into())),
+                "partial_cmp" => return Some(PartialOrd::partial_cmp(&$x(0), &$x(1)).out()),
                 "ord_max" => return Some(Ord::max($x(0), $x(1)).out()),
                 "ord_min" => return Some(Ord::min($x(0), $x(1)).out()),
                 "ord_clamp" => return Some(Ord::clamp($x(0), $x(1), $x(2)).out()),
